@@ -328,9 +328,16 @@ META = {
                   'return, so solve() on a DAG returns with every slack >= 0 exactly GIVEN that every refine pass on the trace does (C01_static_solve_no_throw_on_dag_partial, '
                   'hypothesis passes_ok); the geometry of mergeRight (invariant I2: in-constraints hold and slack(in)+slack(out) >= 0 for every pair; kept by a merge across a most '
                   'violated out-constraint, C01_static_merge_right_step_geometry) and mergeRight as a whole GIVEN that findMinOutConstraint delivers a most violated '
-                  'out-constraint (C01_static_merge_right_all_sat_partial, hypothesis mr_roots_ok). Not proved: the out-heap order invariant, the mergeLeft half of '
-                  'Blocks::split (pair invariant J under a merge with the not-yet-optimal right half), Block::split / findMinLM. The candidate invariants are evaluated '
-                  'as booleans on every split of every DAG solve() instance (Vpsc/StaticRefB.v, driver line r, checked in vlib/c01lib.eval_corr_static): I2 / J / root-min / '
+                  'out-constraint (C01_static_merge_right_all_sat_partial, hypothesis mr_roots_ok) - that hypothesis is now DISCHARGED (Vpsc/StaticOutHeap.v: every element of the '
+                  'out-heaps mergeRight works with is stamped with the current counter, its key is -DBL_MAX exactly when it is internal, the other keys of one heap shift '
+                  'uniformly in a merge): C01_static_merge_right_all_sat has only the loop invariant I2 and time-stamp / vector-length well-formedness as premises. '
+                  'The mergeLeft half of Blocks::split (Vpsc/StaticGeom2.v, StaticSplitML.v): Block::merge for a block whose statistics are valid but whose posn is not the '
+                  'optimum (C01_static_merge_nonoptimal_shift), and a two-mode loop invariant (mode A while r is not part of the current block: every variable of the block is left '
+                  'of its position at split entry by at least the violation of every in-constraint - every constraint holds at exit; mode B after r was merged: pair invariant J - '
+                  'I2 at exit) kept by every iteration (C01_static_split_merge_left_step/_entry/_exit_*), mergeLeft as a whole GIVEN most violated roots '
+                  '(C01_static_split_merge_left_partial, hypothesis ml_roots_ok). Not proved: the in-heap order in the split context, Block::split / findMinLM (incl. the sign of '
+                  'the moves of the two halves), the assembly through static_split / refine_pass with totality. The candidate invariants are evaluated '
+                  'as booleans on every split of every DAG solve() instance (Vpsc/StaticRefB.v, driver line r, checked in vlib/c01lib.eval_corr_static): I2 / J / root-min (both heaps) / mode A / '
                   'all-sat-after-split hold on every visited state; the naive ones (mergeLeft(l) leaves everything satisfied, nothing moves right in mergeLeft / left in '
                   'mergeRight) are false on reachable states and are only recorded. '
                   'Weight histories: the block-statistics invariant (all_ok) is not proved for them (stale sums in deleted blocks); its weight-independent part '
